@@ -89,7 +89,7 @@ def run_case(ns, mon, case):
                 nchk += 1
                 if not okd:
                     nin += 1
-                elif abs(gd - wd) > 1e-6 * (scale + abs(wd) + float(np.max(np.abs(grads[i])))):
+                elif not (abs(gd - wd) <= 1e-6 * (scale + abs(wd) + float(np.max(np.abs(grads[i]))))):
                     nbad += 1
         counters["fd_coords_checked"] = counters.get("fd_coords_checked", 0) + nchk
         counters["fd_inconclusive"] = counters.get("fd_inconclusive", 0) + nin
